@@ -214,3 +214,12 @@ Definition degenerate_name (o : outarg) (values : env) : bool :=
   | Ok (FMany l) => existsb bad_name l
   | _ => false
   end.
+
+(* ShellOutputs._from_job for an outarg field: the job's own input value when that is a Path (explicit path, or the
+   template already resolved by template_update), otherwise ShellOutputs._resolve_value *)
+Definition output_value (o : outarg) (g : given) (values : env) (cache_dir : list ascii) : res resolved :=
+  match resolve_input o g values cache_dir with
+  | Ok (ROne p) => Ok (ROne p)
+  | Err e => Err e
+  | Ok _ => resolve_output o values cache_dir
+  end.
